@@ -65,3 +65,14 @@ func lemmaEntryAccounted(txn *Txn, e *Entry, ts uint64) (int64, int64, error) {
 func lemmaIVInjective(lf *logFile, o1, o2 uint32) ([]byte, []byte) {
 	return lf.generateIV(o1), lf.generateIV(o2)
 }
+
+// lemmaValuePointerRoundTrip: C20, "value pointers round-trip for all field values".
+//
+// @ func lemmaValuePointerRoundTrip
+// @   props C20
+// @   ensures[same] result == p
+func lemmaValuePointerRoundTrip(p valuePointer) valuePointer {
+	var out valuePointer
+	out.Decode(p.Encode())
+	return out
+}
